@@ -1,7 +1,232 @@
-(* C02 - signed exchanges; placeholder until the proofs land. *)
-From WP Require Import Base.Prelude Model.Sxg.
+(* C02 - signed exchanges, write / read half.
+
+   "Every exchange the library agrees to sign and write is read back with
+   identical version, URL, method, status, header fields (names case-folded,
+   repeated values comma-joined), Signature header and payload bytes ...; A
+   write whose URL, signature or header block does not fit the format's length
+   fields or limits fails instead of emitting a file that reads back
+   differently."   (The Verify half of C02 is in the SxgVerify development.)
+
+   Model: Model/Sxg.v ([write], [read] = Exchange.Write / ReadExchange).
+   Definitions used in the statements: Proofs/SxgReadDefs.v, repeated here:
+
+     readable e : bool :=
+          url_accepted (e_uri e)        validateFallbackURL accepts it: url.Parse ok and
+                                        scheme https, *decided* by the URL model
+       && headers_ok (e_resph e)        every response header name is an RFC 7230 token
+       && int64_b (e_status e)          ResponseStatus is a Go int
+       && negb (e_taint e)
+       && match e_ver e with
+          | V1b3 => e_method e = "GET" && e_reqh e = []     (b3 stores neither)
+          | _    => headers_ok (e_reqh e)
+          end
+
+     canon_exchange e := e with both header maps replaced by [canon_headers]:
+       the list, sorted by the bytewise order of the encoded key
+       enc_bytes (lower name), of (canonical_key (lower name), [join_comma values]).
+
+   Every condition of [readable] is something a caller of the library satisfies
+   with ordinary HTTP data, and each is needed ([readable_conditions_needed]).
+   Not assumed: that names are distinct after lower-casing (such a map is
+   refused by Write: duplicate CBOR key), any length bound (they follow from
+   write e = Ok bs), non-empty names, anything about values, method (b1/b2),
+   Signature header value or payload.  Token names are a sufficient, legitimate
+   domain rather than the weakest one: a non-token ASCII name that is not a
+   pseudo key would round-trip too (canonical_key leaves it alone), a non-ASCII
+   one makes the reader fail or depend on strings.ToLower beyond the model. *)
+From Coq Require Import Lia.
+From WP Require Import Base.Prelude Model.Cbor Model.Http Model.Sxg.
+From WP Require Import Proofs.CborDecode Proofs.SxgReadDefs Proofs.SxgRoundtrip.
 Open Scope N_scope.
 
-Theorem c02_smoke : from_magic (header_magic V1b3) = Some V1b3.
-Proof. reflexivity. Qed.
-Print Assumptions c02_smoke.
+(* ---- write then read ----------------------------------------------------------------- *)
+Theorem c02_write_read : forall e bs,
+  readable e = true -> write e = Ok bs -> read bs = Ok (canon_exchange e).
+Proof. exact write_read. Qed.
+Print Assumptions c02_write_read.
+
+(* field by field, as the property lists them *)
+Corollary c02_write_read_fields : forall e bs e',
+  readable e = true -> write e = Ok bs -> read bs = Ok e' ->
+  e_ver e' = e_ver e /\ e_uri e' = e_uri e /\ e_method e' = e_method e /\
+  e_status e' = e_status e /\ e_sig e' = e_sig e /\ e_payload e' = e_payload e /\
+  e_reqh e' = canon_headers (e_reqh e) /\ e_resph e' = canon_headers (e_resph e) /\
+  e_taint e' = false.
+Proof. exact write_read_fields. Qed.
+Print Assumptions c02_write_read_fields.
+
+(* ---- a write that does not fit fails ----------------------------------------------------- *)
+Theorem c02_write_refuses_overflow : forall e bs, write e = Ok bs ->
+  exists hdr, encode_exchange_headers e = Ok hdr /\
+    match e_ver e with
+    | V1b1 => lenN (e_sig e) < 16777216 /\ lenN hdr < 16777216
+    | _ => lenN (e_uri e) < 65536 /\ lenN (e_sig e) <= 16384 /\ lenN hdr <= 524288
+    end.
+Proof. exact write_refuses_overflow. Qed.
+Print Assumptions c02_write_refuses_overflow.
+
+Theorem c02_write_err_iff : forall e, e_ver e <> V1b1 ->
+  (write e = Err <->
+   encode_exchange_headers e = Err \/
+   exists hdr, encode_exchange_headers e = Ok hdr /\
+     (65536 <= lenN (e_uri e) \/ 16384 < lenN (e_sig e) \/ 524288 < lenN hdr)).
+Proof. exact write_err_iff. Qed.
+Print Assumptions c02_write_err_iff.
+
+(* ---- the reader's result is a fixpoint ---------------------------------------------------- *)
+Theorem c02_canon_idempotent : forall e, canon_exchange (canon_exchange e) = canon_exchange e.
+Proof. exact canon_idempotent. Qed.
+Print Assumptions c02_canon_idempotent.
+
+Theorem c02_readable_canon : forall e, readable e = true -> readable (canon_exchange e) = true.
+Proof. exact readable_canon. Qed.
+Print Assumptions c02_readable_canon.
+
+(* canonicalising changes no written byte (for ANY exchange) *)
+Theorem c02_write_canon : forall e, write (canon_exchange e) = write e.
+Proof. exact write_canon. Qed.
+Print Assumptions c02_write_canon.
+
+Theorem c02_write_read_fixpoint : forall e bs, readable e = true -> write e = Ok bs ->
+  write (canon_exchange e) = Ok bs /\ read bs = Ok (canon_exchange e) /\
+  canon_exchange (canon_exchange e) = canon_exchange e.
+Proof. exact write_read_fixpoint. Qed.
+Print Assumptions c02_write_read_fixpoint.
+
+(* ---- the reader on arbitrary bytes ---------------------------------------------------------- *)
+Theorem c02_read_never_panics : forall bs, ok_or_err (read bs).
+Proof. exact read_never_panics. Qed.
+Print Assumptions c02_read_never_panics.
+
+Theorem c02_read_prologue_never_panics : forall bs, ok_or_err (read_prologue bs).
+Proof. exact read_prologue_total. Qed.
+Print Assumptions c02_read_prologue_never_panics.
+
+(* ==== examples ================================================================================= *)
+Definition rs1 : headers :=
+  [(s2b "Content-Type", [s2b "text/html"]); (s2b "x-FOO-bar", [s2b "a"; s2b "b"; []]);
+   (s2b "Digest", []); ([], [s2b "empty name"]); (s2b "A", [[0; 255; 44]])].
+Definition rq1 : headers := [(s2b "accept", [s2b "*/*"]); (s2b "ZZ", [[0; 200]])].
+Definition mk (v : version) (u m : bytes) (rq : headers) (st : Z) (rs : headers) : exchange :=
+  {| e_ver := v; e_uri := u; e_method := m; e_reqh := rq; e_status := st; e_resph := rs;
+     e_sig := s2b "label;sig=*AA==*"; e_payload := [1; 2; 3; 0; 255]; e_taint := false |}.
+Definition url1 : bytes := s2b "https://example.com/a?b=c".
+Definition ex1 : exchange := mk V1b1 url1 (s2b "POST") rq1 (-5)%Z rs1.
+Definition ex2 : exchange := mk V1b2 url1 (s2b "HEAD") rq1 200%Z rs1.
+Definition ex3 : exchange := mk V1b3 url1 (s2b "GET") [] 404%Z rs1.
+
+Definition exchange_eqb (a b : exchange) : bool :=
+  let hb := fix hb (x y : headers) : bool :=
+    match x, y with
+    | [], [] => true
+    | (n, vs) :: x', (n', vs') :: y' =>
+        bytes_eqb n n'
+        && (fix vb (p q : list bytes) : bool :=
+              match p, q with
+              | [], [] => true
+              | a :: p', b :: q' => bytes_eqb a b && vb p' q'
+              | _, _ => false
+              end) vs vs'
+        && hb x' y'
+    | _, _ => false
+    end in
+  version_eqb (e_ver a) (e_ver b) && bytes_eqb (e_uri a) (e_uri b)
+  && bytes_eqb (e_method a) (e_method b) && hb (e_reqh a) (e_reqh b)
+  && (e_status a =? e_status b)%Z && hb (e_resph a) (e_resph b)
+  && bytes_eqb (e_sig a) (e_sig b) && bytes_eqb (e_payload a) (e_payload b)
+  && Bool.eqb (e_taint a) (e_taint b).
+
+Definition roundtrips (e : exchange) : bool :=
+  readable e
+  && match write e with
+     | Ok bs => match read bs with Ok e' => exchange_eqb e' (canon_exchange e) | _ => false end
+     | _ => false
+     end.
+
+Example ex_readable_roundtrip :
+  roundtrips ex1 = true /\ roundtrips ex2 = true /\ roundtrips ex3 = true.
+Proof. vm_compute. repeat split. Qed.
+
+(* what comes back: canonical keys, comma-joined values, sorted by encoded key
+   (shorter keys first; the empty name is legal) *)
+Example ex_canon_headers :
+  canon_headers rs1 =
+  [([], [s2b "empty name"]); (s2b "A", [[0; 255; 44]]); (s2b "Digest", [[]]);
+   (s2b "X-Foo-Bar", [s2b "a,b,"]); (s2b "Content-Type", [s2b "text/html"])]
+  /\ canon_headers rq1 = [(s2b "Zz", [[0; 200]]); (s2b "Accept", [s2b "*/*"])].
+Proof. vm_compute. split; reflexivity. Qed.
+
+(* the theorem instantiated (hypotheses satisfiable) *)
+Example ex_write_read_inst : exists bs, write ex2 = Ok bs /\ read bs = Ok (canon_exchange ex2).
+Proof.
+  destruct (write ex2) as [bs| | |] eqn:E; try (vm_compute in E; discriminate E).
+  exists bs. split; [reflexivity|]. apply write_read; [vm_compute; reflexivity|exact E].
+Qed.
+
+(* second generation: same bytes *)
+Example ex_fixpoint :
+  write (canon_exchange ex1) = write ex1 /\ canon_exchange (canon_exchange ex1) = canon_exchange ex1.
+Proof. split; [apply write_canon|apply canon_idempotent]. Qed.
+
+(* boundary of the 2-byte URL length: 65535 bytes are written and read back,
+   65536 are refused (b2 and b3) *)
+Definition long_url (n : N) : bytes := s2b "https://e.com/" ++ repeat 97 (N.to_nat (n - 14)).
+Example ex_url_boundary :
+  lenN (long_url 65535) = 65535 /\ lenN (long_url 65536) = 65536 /\
+  roundtrips (mk V1b2 (long_url 65535) (s2b "GET") [] 200%Z []) = true /\
+  roundtrips (mk V1b3 (long_url 65535) (s2b "GET") [] 200%Z []) = true /\
+  write (mk V1b2 (long_url 65536) (s2b "GET") [] 200%Z []) = Err /\
+  write (mk V1b3 (long_url 65536) (s2b "GET") [] 200%Z []) = Err /\
+  readable (mk V1b3 (long_url 65536) (s2b "GET") [] 200%Z []) = true.
+Proof. vm_compute. repeat split. Qed.
+
+(* boundary of the Signature length limit (b3): 16384 written and read back, 16385 refused *)
+Definition with_sig (n : N) : exchange :=
+  {| e_ver := V1b3; e_uri := url1; e_method := s2b "GET"; e_reqh := []; e_status := 200%Z;
+     e_resph := [(s2b "content-type", [s2b "text/plain"])];
+     e_sig := repeat 97 (N.to_nat n); e_payload := [7]; e_taint := false |}.
+Example ex_sig_boundary :
+  roundtrips (with_sig 16384) = true /\ write (with_sig 16385) = Err.
+Proof. vm_compute. split; reflexivity. Qed.
+
+(* a map with two names equal after lower-casing is refused by Write (so
+   [readable] need not forbid it) *)
+Example ex_duplicate_refused :
+  readable (mk V1b3 url1 (s2b "GET") [] 200%Z [(s2b "A", [[1]]); (s2b "a", [[2]])]) = true /\
+  write (mk V1b3 url1 (s2b "GET") [] 200%Z [(s2b "A", [[1]]); (s2b "a", [[2]])]) = Err.
+Proof. vm_compute. split; reflexivity. Qed.
+
+(* each condition of [readable] is needed: without it Write succeeds and the
+   file either fails to read or reads back as something else *)
+Definition reads_back (e : exchange) : option bool :=
+  match write e with
+  | Ok bs => match read bs with
+             | Ok e' => Some (exchange_eqb e' (canon_exchange e))
+             | _ => None              (* written, but the reader refuses it *)
+             end
+  | _ => Some true                    (* not written *)
+  end.
+Example readable_conditions_needed :
+  (* http URL: written, not readable *)
+  reads_back (mk V1b3 (s2b "http://example.com/") (s2b "GET") [] 200%Z []) = None /\
+  (* b3 with another method: reads back as GET *)
+  reads_back (mk V1b3 url1 (s2b "POST") [] 200%Z []) = Some false /\
+  (* b3 with request headers: they are dropped *)
+  reads_back (mk V1b3 url1 (s2b "GET") rq1 200%Z []) = Some false /\
+  (* a non-ASCII header name that is invalid UTF-8: the reader refuses the key *)
+  reads_back (mk V1b3 url1 (s2b "GET") [] 200%Z [([200], [[1]])]) = None /\
+  (* a request header named ":method" (not a token): Write refuses (duplicate key) *)
+  write (mk V1b2 url1 (s2b "GET") [(s2b ":method", [s2b "PUT"])] 200%Z []) = Err /\
+  (* a request header named ":url" (not a token) in b2: written, but the reader
+     rejects the deprecated key *)
+  reads_back (mk V1b2 url1 (s2b "GET") [(s2b ":url", [url1])] 200%Z []) = None.
+Proof. vm_compute. repeat split. Qed.
+
+(* the reader on garbage *)
+Example ex_read_garbage :
+  read [] = Err /\ read (s2b "sxg1-b3") = Err /\ read (s2b "sxg1-b4" ++ [0; 0; 0]) = Err /\
+  read (s2b "sxg1-b3" ++ [0; 0; 0; 0; 0; 0; 0; 0; 0]) = Err /\          (* empty URL is not https *)
+  read (s2b "sxg1-b1" ++ [0; 0; 0; 0; 0; 0; 3; 130; 160; 160])          (* [ {}, {} ] *)
+  = Ok {| e_ver := V1b1; e_uri := []; e_method := []; e_reqh := []; e_status := 0; e_resph := [];
+          e_sig := []; e_payload := []; e_taint := false |}.
+Proof. vm_compute. repeat split. Qed.
